@@ -82,7 +82,10 @@ EXTRA_UNI = dict(nbspace=0xA0, quotereversed=0x201B, gravecomb=0x300, acutecomb=
 ODD_UNI = [0, 0xE000, 0xF8FF, 0x378, 0x2FE0, 0x10FFFF, 0xF0000, 0x1F600, 0x2460, 0x5D0, 0x627, 0x4E2D, 0x1D4B6,
            0x28, 0x29, 0x5B, 0x5D, 0xAB, 0xBB, 0x2018, 0x2019, 0x201A, 0x201C, 0x201D, 0x201E, 0x201F, 0x2E42,
            0x301D, 0x301E, 0x301F, 0xFD3E, 0xFD3F, 0xE1, 0x1FA, 0x1EA5, 0x1E9B, 0x3D3, 0x3D4, 0x2126, 0x212B,
-           0xFB01, 0xFB06, 0x20, 0x2003, 0x3000, 0x2031, 0x25, 0x2E, 0x2C]
+           0xFB01, 0xFB06, 0x20, 0x2003, 0x3000, 0x2031, 0x25, 0x2E, 0x2C,
+           # plain base letters: a second unicode of this kind makes a glyph the decomposition base of others
+           # (or of itself) while it has a base of its own
+           0x61, 0x63, 0x41, 0x61, 0x63]
 
 
 def _agl():
@@ -141,6 +144,8 @@ def gen_font(rng):
                 unis = [rng.choice(ODD_UNI)]
             elif r < 0.90 and u is not None:
                 unis = [u, rng.choice(ODD_UNI)]
+                if nm in ("aacute", "agrave", "adieresis", "ccedilla", "Aacute", "Aringacute") and rng.random() < 0.6:
+                    unis = [u, rng.choice([0x61, 0x63, 0x41])]
             elif r < 0.93:
                 unis = [rng.choice(ODD_UNI), rng.choice(ODD_UNI)]
         font.append([nm, unis])
